@@ -246,9 +246,15 @@ impl BackwardEngine {
         // Use conclusion index for O(1) lookup
         let candidates = self.conclusion_index.find_candidates(&goal.pattern);
 
-        // Add candidate rules to goal
-        for rule_name in candidates {
-            goal.add_candidate_rule(rule_name);
+        // Add candidate rules to goal in knowledge-base order (salience, then
+        // insertion). The index returns a hash set; trying candidates in its
+        // iteration order made the outcome of a query vary from run to run.
+        if !candidates.is_empty() {
+            for rule in self.knowledge_base.get_rules() {
+                if candidates.contains(&rule.name) {
+                    goal.add_candidate_rule(rule.name.clone());
+                }
+            }
         }
 
         // If no candidates found via index, fall back to checking all rules
